@@ -25,7 +25,13 @@ META = {
                   "with the residual map, norm, Jacobian and linear solve as uninterpreted functions over vectors of "
                   "unspecified dimension; the Newton and back-tracking loops are cut with invariants (initiation, "
                   "preservation, exit VCs). Every return path / raise path is a VC discharged by z3 (cvc5 on unknown). "
-                  "Wiring of residual/Jacobian closures and of period = 2*half_period is checked by exact execution.",
+                  "Wiring of residual/Jacobian closures and of period = 2*half_period is checked by exact execution; the "
+                  "configured tolerance, attempt limit, step cap and Armijo parameters are traced through create_problem, "
+                  "to_backend_inputs and the stepper factories into the line search that performs the step. What 'residual == "
+                  "0' means for periodicity is decided per orbit family: R1 (xz-plane reflection) and R2 (x-axis rotation) "
+                  "are proved to be reversing symmetries of the real field for all mu and states, and start, event section + "
+                  "residual indices and controls of each family (halo, Lyapunov, vertical; L1, L2) must form a mirror "
+                  "configuration of ONE of them, so that 2*t_event is the period (T5).",
     "level_note": "Not decided: closure of the orbit under an independent integrator (needs the mirror theorem T5 and "
                   "integration accuracy); termination of the Armijo loop (geometric decrease; stated, not proved); "
                   "numpy.linalg (cond/solve/lstsq) is external - _solve_delta_dense is trusted. Callbacks are "
